@@ -28,6 +28,11 @@
 //  transport.handleMessage (client)     | reply well-formed / cut inside the body /    | real-call [new] (all 8 call kinds); short header,
 //                                       | trailing bytes / error byte set              | wrong id/type: C03's scripted peer
 //  writeExchangeResp / encodeTo         | every reply kind, error byte                 | reply-frame (encoder), real-call (decoded by the client)
+//  the websocket itself (read loop of   | frames of 442 B ... 3 MiB: sizes on both     | big-frame [new, hook verif_serve.go]: Hello (n-byte
+//   endpointServer.serve and of the     | sides of every integer the package names,    | string, echoed) and Dial + one tunnel.Write of n
+//   client transport; buffer sizes,     | 1 MiB + 1 KiB +- 1, 3 MiB                     | bytes between the real client and the REAL
+//   read limit, compression: SUPPLIED   |                                              | endpointServer.serve; oracle only (C13-i)
+//   configuration of gorilla)           |                                              |
 //  handleRead                           | maxRead < 0, 0, around maxReadSize (2^20),   | read-size (avail 1, 100, 2^20+5)
 //                                       | up to 2^63-1; more/less available            |
 //  tunnel.Read                          | reply shorter / equal / longer than buffer   | read-reply-size (real transport)
@@ -41,12 +46,16 @@
 package main
 
 import (
+	"bytes"
 	"context"
 	"encoding/hex"
+	"io"
+	"net"
 	"flag"
 	"fmt"
 	"os"
 	"strconv"
+	"strings"
 	"time"
 
 	"github.com/gorilla/websocket"
@@ -328,6 +337,8 @@ func encodeBody(s schemaT, fs []Field) []byte {
 	return b
 }
 
+var bigSizes []int
+
 func genCases(seed uint64, n int) []Case {
 	r := hx.NewRng(seed)
 	var cs []Case
@@ -483,6 +494,13 @@ func genCases(seed uint64, n int) []Case {
 			add(Case{Stream: "real-call", Op: "real", Name: s.name, RName: rs.name, Sent: sent, RSent: rsent,
 				Scen: scen, Cut: 1 + r.Intn(12), Cap: cp})
 		}
+	}
+	// One large field through REAL websocket frames to the real endpointServer.serve
+	// (seeded change C13-i: a read limit on the websocket): sizes on both sides of
+	// every integer the package names, 1 MiB + 1 KiB +- 1, 3 MiB.
+	for _, n := range bigSizes {
+		add(Case{Stream: "big-frame", Op: "e2e", Name: "hello", Avail: n})
+		add(Case{Stream: "big-frame", Op: "e2e", Name: "write", Avail: n})
 	}
 	// Held requests (seeded change C13-g): k frames through startCall on one
 	// endpointServer, every request read again after the later decodes.  Write
@@ -749,6 +767,8 @@ func runCase(c *Case) {
 		realCall(c, o)
 	case "wrap":
 		wrapCall(c, o)
+	case "e2e":
+		bigFrame(c, o)
 	case "hold":
 		// serve() hands every decoded request to a goroutine and decodes the next
 		// frame: requests are HELD while later frames go through startCall on the
@@ -882,6 +902,91 @@ func realCall(c *Case, o *Obs) {
 		}
 	case <-time.After(2 * time.Second):
 		o.Err = "other:no request frame"
+	}
+}
+
+// bigFrame sends ONE large field through real websocket frames between the
+// real client side and the REAL endpointServer.serve (its read loop included):
+// Hello with an n-byte string (request and echoed reply are both n-byte
+// frames), or Dial + a single tunnel.Write of n bytes that the accepting
+// application reads back.  c.Name: hello | write; c.Avail: n.
+func bigFrame(c *Case, o *Obs) {
+	pair, err := rpcx.NewWSPair()
+	if err != nil {
+		o.Err = "other:" + err.Error()
+		return
+	}
+	defer pair.Close()
+	n := c.Avail
+	payload := make([]byte, n)
+	for i := range payload {
+		payload[i] = byte(i*7 + n)
+	}
+	type got struct {
+		b   []byte
+		err error
+	}
+	appGot := make(chan got, 1)
+	served := sniproxy.VerifServeEndpoint(pair.B, func(conn net.Conn) error {
+		go func() {
+			defer conn.Close()
+			buf := make([]byte, n)
+			conn.SetDeadline(time.Now().Add(15 * time.Second))
+			k, err := io.ReadFull(conn, buf)
+			appGot <- got{buf[:k], err}
+		}()
+		return nil
+	})
+	client := sniproxy.VerifNewClient(pair.A, nil)
+	ctx, cancel := context.WithTimeout(context.Background(), 15*time.Second)
+	defer cancel()
+	done := make(chan struct{})
+	go func() {
+		defer close(done)
+		switch c.Name {
+		case "hello":
+			s, err := client.Hello(ctx, string(payload))
+			o.RErr = sniproxy.VerifCallErrKind(err)
+			o.N = len(s)
+			if err == nil && s != string(payload) {
+				o.RErr = "differs"
+			}
+		case "write":
+			conn, err := client.Dial(ctx, "")
+			if err != nil {
+				o.RErr = "dial:" + sniproxy.VerifCallErrKind(err)
+				return
+			}
+			k, err := conn.Write(payload)
+			o.RErr = sniproxy.VerifCallErrKind(err)
+			o.N = k
+			if err == nil && n > 0 {
+				select {
+				case g := <-appGot:
+					if g.err != nil || !bytes.Equal(g.b, payload) {
+						o.RErr = "differs"
+						o.N = len(g.b)
+					}
+				case <-time.After(15 * time.Second):
+					o.RErr = "hang"
+				}
+			}
+		}
+	}()
+	select {
+	case <-done:
+	case <-time.After(20 * time.Second):
+		o.RErr = "hang"
+	}
+	select {
+	case err := <-served: // the endpoint side gave up on the connection
+		if err != nil {
+			o.Err = "served:" + err.Error()
+		} else {
+			o.Err = "served:nil"
+		}
+	default:
+		o.Err = "ok"
 	}
 }
 
@@ -1031,7 +1136,13 @@ func main() {
 	child := flag.Bool("child", false, "child mode")
 	from := flag.Int("from", 0, "first case (child)")
 	mem := flag.Uint64("mem", 3<<30, "address-space limit of the child")
+	sizes := flag.String("sizes", "", "comma-separated payload sizes of the big-frame stream")
 	flag.Parse()
+	for _, x := range strings.Split(*sizes, ",") {
+		if v, err := strconv.Atoi(strings.TrimSpace(x)); err == nil && v >= 0 {
+			bigSizes = append(bigSizes, v)
+		}
+	}
 
 	cs := genCases(*seed, *n)
 	out := hx.NewOut(os.Stdout)
@@ -1043,7 +1154,7 @@ func main() {
 		}
 		return
 	}
-	args := []string{"-seed", strconv.FormatUint(*seed, 10), "-n", strconv.Itoa(*n)}
+	args := []string{"-seed", strconv.FormatUint(*seed, 10), "-n", strconv.Itoa(*n), "-sizes", *sizes}
 	err := hx.RunIsolated(len(cs), args, *mem,
 		func(i int, raw []byte) { os.Stdout.Write(append(raw, '\n')) },
 		func(i int, why string) {
